@@ -209,6 +209,8 @@ fn word_strategy() -> impl Strategy<Value = Word> {
         3 => (any::<u16>(), edge, prop_oneof![Just(1i8), Just(-1i8), -5i8..6]).prop_map(|(map, edge, alias)| Word::MapRel { map, edge, alias }),
         1 => Just(Word::Sentinel),
         2 => any::<u64>().prop_map(Word::Random),
+        // values at the ends of the signed and unsigned ranges (sign-magnitude traps)
+        1 => prop_oneof![Just(1u64 << 63), Just((1u64 << 63) + 1), Just((1u64 << 63) - 1), Just(u64::MAX), Just(u64::MAX - 4095), Just(u64::MAX - 4096), Just((1u64 << 63) + 4096), Just(1u64 << 32), Just(u32::MAX as u64)].prop_map(Word::Random),
     ]
 }
 
@@ -310,7 +312,7 @@ pub fn run(ctx: &mut LaneCtx) {
         SubSpec {
             name: "pure-sanitize",
             cases: (120_000, 10_000_000),
-            rule: "generated (mapping layout <=40 maps incl. bucket-edge and 4 GiB-alias placements, stack words from {small ints around +-4096, mapping edges, aliases +-k*2^32, sentinel, random}, 0..7 trailing bytes, sp inside/outside mappings, sp_offset 0..600 incl. > len) vs reference classifier; non-trivial = the case has kept-small, kept-pointer, defaced and alias-defaced words; distinct = hash of the case",
+            rule: "generated (mapping layout <=40 maps incl. bucket-edge and 4 GiB-alias placements, stack words from {small ints around +-4096, mapping edges, aliases +-k*2^32, sentinel, the ends of the signed/unsigned 64-bit ranges, random}, 0..7 trailing bytes, sp inside/outside mappings, sp_offset 0..600 incl. > len) vs reference classifier; non-trivial = the case has kept-small, kept-pointer, defaced and alias-defaced words; distinct = hash of the case",
             strategy: case_strategy().boxed(),
             max_shrink_iters: 4096,
             log_current: false,
